@@ -17,16 +17,16 @@ let world16 = [ { rbase = shl 6 44; rsize = pow2 16 }; { rbase = shl 7 44; rsize
 (* op name suffix selects the configuration *)
 let split_op (op : string) : string * string =
   let n = String.length op in
-  if n > 2 && (String.sub op (n - 2) 2 = "16" || String.sub op (n - 2) 2 = "32")
+  if n > 2 && (String.sub op (n - 2) 2 = "16" || String.sub op (n - 2) 2 = "32" || String.sub op (n - 2) 2 = "64")
   then (String.sub op 0 (n - 2), String.sub op (n - 2) 2) else (op, "32")
 let world cfg = if cfg = "16" then world16 else world32
-let lab cfg = if cfg = "16" then labi_lp32_16 else labi_lp32
+let lab cfg = if cfg = "16" then labi_lp32_16 else if cfg = "64" then labi_lp32_64 else labi_lp32
 let total cfg = if cfg = "16" then pow2 16 else pow2 32
 
 let ps_ty = TStruct [TInt IInt; TInt ILong; TInt IChar; TInt ILLong; TPtr]
 let ptee_of_string = function
   | "char" -> TInt IChar | "short" -> TInt IShort | "int" -> TInt IInt | "long" -> TInt ILong
-  | "ulong" -> TInt IULong | "llong" -> TInt ILLong | "ullong" -> TInt IULLong | "double" -> TDouble
+  | "ulong" -> TInt IULong | "llong" -> TInt ILLong | "ullong" -> TInt IULLong | "double" -> TDouble | "float" -> TFloat
   | "ptr" -> TPtr | "arr4" -> TArr (z_of_int 4, TInt IInt) | "larr3" -> TArr (z_of_int 3, TInt ILong)
   | "ps" -> ps_ty | s -> failwith ("bad pointee " ^ s)
 
@@ -141,6 +141,17 @@ let handle_bulk (toks : string list) : (string * string * string) option =
        let prod = Z.mul count elsz in
        let cls = "vrange" ^ (if ms <> ss && (Z.leb m64 prod || Z.ltb m64 (Z.add start prod)) then ":kf=D6" else "") in
        Some (ms, ss, cls)
+     | "deny", [src; elk; num] ->
+       (* copy_memory_or_deny_access, copy path: the whole source extent num*sizeof(T) must be a good range
+          (inside one sandbox), else abort before anything is copied; a null source with a non-empty extent
+          is outside the API contract (not generated) *)
+       let src = zs src and num = zs num in
+       let elsz = sizeof labi_host (ptee_of_string elk) in
+       let ms = (match copy_or_deny guarded l src num elsz with
+           | Ok _ -> "OK copy copied" | Abort -> "REFUSED" | Fault -> "FAULT" | Diverge -> "DIVERGE") in
+       (* REFUSED: abort, or a null return with nothing copied (the application-side malloc of an absurd size fails first) *)
+       let ss = if num = Z0 then "REFUSED" else if counted_good l src num elsz then "OK copy copied" else "REFUSED" in
+       Some (ms, ss, "deny:" ^ elk ^ (if ss = "REFUSED" then ":refuse" else ":ok"))
      | "usp", [p; elk; count] ->
        let p = zs p and count = zs count in
        let elsz = sizeof labi_host (ptee_of_string elk) in
